@@ -1,6 +1,7 @@
 #!/bin/sh
 # usage: seedtest.sh <seed dir name> <property id>...
 # Applies a seeded mutation to /repo, runs the quick checks, and reverts.
+# The patch is reverted with `git apply -R` (never `checkout -- .`, which would also throw away uncommitted contract edits).
 # The evidence files are saved and restored (evidence must describe the unchanged tree).
 d=/verif/seeded/$1; shift
 tmp=$(mktemp -d)
@@ -9,5 +10,5 @@ git -C /repo apply "$d/patch.diff" || { rm -rf "$tmp"; exit 3; }
 for p in "$@"; do
   (cd /verif && bin/govc check -property $p -tier quick | grep -v "^property" | cut -c1-220 | head -8; echo "  -> $p done")
 done
-git -C /repo checkout -- .
+git -C /repo apply -R "$d/patch.diff" || echo "WARNING: could not revert $d/patch.diff"
 rm -rf /verif/evidence && cp -r "$tmp/evidence" /verif/evidence && rm -rf "$tmp"
